@@ -191,6 +191,11 @@ func DrawHistory(c *Ctx, rng *rand.Rand, o HistoryOpts) *History {
 				}
 			}
 			h.Ops = append(h.Ops, genOp(g))
+		case choice == 6 && spec != nil: // ShrinkOutput: the new output is a strict shortening
+			spec = spec.Shorten()
+			nw := withDefaultGoMod(w.Module, spec.Render())
+			h.Ops = append(h.Ops, editOps("ShrinkOutput", cur, nw)...)
+			cur = nw
 		case choice == 4 && o.Relocate:
 			h.Ops = append(h.Ops, Op{Kind: "relocate", Label: "Relocate", N: rng.IntN(3)})
 		case choice == 5 && spec != nil && len(spec.Convs) > 0: // ChangeLayout
@@ -290,4 +295,27 @@ func F9Probe() *History {
 		{Kind: "corrupt", Label: "Corrupt", Content: "garbage", N: 0, Path: "0"},
 		genOp(g()),
 	}}
+}
+
+// CrashThenShrink is the systematic family "a run dies at disk call k, then the input changes
+// so that the outputs get shorter, then one fault-free regeneration": leftovers of the dead
+// run (torn or complete files, temp files) must not reach the regenerated bytes.
+func CrashThenShrink(rng *rand.Rand, k int, kind string) *History {
+	spec := DrawLayout(rng, 1+rng.IntN(3), LayoutOpts{UserPkgs: true})
+	w := spec.World("crash-then-shrink")
+	short := spec.Shorten()
+	gen := func(sp *LSpec, faults []verifsim.Fault, setup bool) Op {
+		g := &GenSpec{Plan: planIdentity(), Spec: sp, Expect: "ok", Canon: w.Patterns, Globals: []string{}, Setup: setup}
+		g.Plan.Faults = faults
+		return genOp(g)
+	}
+	f := verifsim.Fault{Call: k, Kind: kind, N: []int{120, 400, -1, -2}[rng.IntN(4)], Err: "ENOSPC"}
+	h := &History{World: w, Loc: rng.IntN(len(locNames))}
+	if rng.IntN(2) == 0 {
+		h.Ops = append(h.Ops, gen(spec, nil, true))
+	}
+	h.Ops = append(h.Ops, gen(spec, []verifsim.Fault{f}, false))
+	h.Ops = append(h.Ops, editOps("ShrinkOutput", withDefaultGoMod(w.Module, w.Files), withDefaultGoMod(w.Module, short.Render()))...)
+	h.Ops = append(h.Ops, gen(short, nil, false))
+	return h
 }
